@@ -187,7 +187,10 @@ def run_script(aiocoap, script, direct=False):
                     "b2": None if resp.opt.block2 is None else tuple(int(x) for x in resp.opt.block2),
                     "opts": ropts, "payload": rp, "exc": exc,
                     "seen": [(c, sp, so) for (c, _b1, _b2, so, sp) in seen],
-                    "entry": w.last_entry, "open": w.last_open, "observing": observing})
+                    "entry": w.last_entry, "open": w.last_open, "observing": observing,
+                    # what an observable resource was handed for its observation (and would be handed again
+                    # for every later notification): the payload of that request
+                    "obs_payload": bytes(w.obs_calls[-1][3]) if w.last_entry == "o" else None})
 
         w.loop.run_until_complete(whole())
         return f"C06 R {T} " + " ".join(toks), " ".join(outs), obs
@@ -456,6 +459,12 @@ def oracle_script(script, obs):
     for i, (st, o) in enumerate(zip(script["steps"], obs)):
         now += st["dt"]
         v = ref.step(now, st, o)
+        if not v and o.get("obs_payload") is not None and o["seen"]:
+            # an observation was set up on this request: every later notification is rendered from the request
+            # the resource was handed for it, so that must be the request the handler saw -- the whole body
+            if o["obs_payload"] != o["seen"][0][1]:
+                v = (f"R:observation set up on a request with a body of {len(o['obs_payload'])} bytes although "
+                     f"the handler was invoked with the reassembled body of {len(o['seen'][0][1])} bytes")
         if v:
             return f"step {i}: {v}", i
     return "", None
